@@ -22,6 +22,7 @@ fn main() {
         "witness" => { witness::run(); return }
         "val" => { valmode::run(&a); return }
         "c19" => { valmode::run_c19(&a); return }
+        "c18v" => { valmode::run_c18v(&a); return }
         "c14t" => { trackmode::run(&a); return }
         "c20" => { valmode::run_c20(&a); return }
         "tables" => { valmode::dump_tables(&a.out); return }
